@@ -89,6 +89,9 @@ def cases(tier, seed):
                         c["share_encoders"] = bool(h % 2 == 0)
                     if algo in ("DQN", "DDPG", "TD3") and ok == "vector" and h % 2 == 1:
                         c["wrapper"] = "RSNorm"
+                        # the wrapper's running statistics only differ from a fresh wrapper's after acting in training mode
+                        c["history"] = ["act"] + list(hist)
+                        c["save_at"] = len(c["history"])
                     out.append(c)
     return out
 
